@@ -57,7 +57,7 @@ claim("C10",
 claim("C11",
       "Coq theorems (PropC11.v): with a fault plan armed on read_dir / open / read, if the injected failure is reached then open returns an I/O error — never Ok, never Corruption, never a hang "
       "(combined with C10's termination). Tied to the code by differential execution with the fault plans of the hooks for every call index recovery makes, with a deadline.",
-      "std's UnexpectedEof-as-short-file convention is part of the model (a short read is the short-file signal).",
+      "std's UnexpectedEof-as-short-file convention is part of the model: a fault plan 'read fails with kind UnexpectedEof' is the in-band end-of-file signal of read_exact (no OS error decodes to that kind) and is excluded from the three main theorems by the premise `reportable p`; C11_absorbed_eof_only_first_read / C11_absorbed_read_is_short_read state what happens for it, and the correspondence check runs such plans too.",
       "Coq proof (invariant 'not fired or error' threaded through recovery) + checked model/code correspondence")
 claim("C12",
       "Coq theorems (PropC12.v), END TO END: after any crash under any policy the recovered records of a batch are none, or all, or all above the highest later truncation - never a hole, never a missing tail (batch_crash, batch_crash_persisted, batch_crash_always, on top of the specification-level batch_all_or_nothing_spec); under CRC-detected damage the batch's entry is dropped as a whole and damage elsewhere leaves it intact (batch_damage_self, batch_damage_other); layers: codec soundness (a decoded batch is the whole batch), replay applies all records of an entry or fails, open on torn and on damaged files. For the real CRC-32 the crash half is subject to known finding F8 (a torn-off tail d ++ rawcrc(d) of the LAST record is accepted as zeros), reproduced on every run. Tied to the code by differential execution plus an oracle over crash cuts inside the batch's writes and payload / type-byte / checksum damage of its frames, in-phase batches included.",
